@@ -379,6 +379,22 @@ def rule_columns(ck):
     if colidx(cid) != {5} or 'builtins.int(' not in u(cid):
         probs.append('catalog_id is `%s`, expected int(line[5])' % u(cid))
     (o.fail('; '.join(probs)) if probs else o.ok('(event_id, time, lat, lon, depth, mag) from columns (6,3,1,0,4,2); catalog_id = int(line[5])'))
+    # the fallback to the format without a fraction hangs on `except ValueError`: what the string conversion raises for a string that
+    # does not match must still *be* a ValueError when it arrives (a wrapper that re-raises another type makes every whole-second time fatal)
+    ot = ck.ob('C12-D4.fallbacktype', g, 'a non-matching time string arrives as ValueError', g.node)
+    conv = []
+    for q_ in ('csep.utils.time_utils.strptime_to_utc_epoch', 'csep.utils.time_utils.strptime_to_utc_datetime'):
+        h_ = P.funcs.get(q_)
+        for hd in ([x for x in all_nodes(h_) if isinstance(x, ast.ExceptHandler)] if h_ is not None else []):
+            catches = hd.type is None or any(w in u(hd.type) for w in ('ValueError', 'Exception'))
+            for r_ in [x for st_ in hd.body for x in ast.walk(st_) if isinstance(x, ast.Raise) and x.exc is not None]:
+                nm_ = u(r_.exc.func) if isinstance(r_.exc, ast.Call) else u(r_.exc)
+                cls_ = next((c_ for q2, c_ in P.classes.items() if q2.split('.')[-1] == nm_.split('.')[-1]), None)
+                is_ve = nm_.split('.')[-1] == 'ValueError' or (cls_ is not None and any('ValueError' in u(b_) for b_ in cls_.node.bases))
+                if catches and not is_ve:
+                    conv.append((h_, nm_))
+    (ot.fail('%s re-raises the ValueError of strptime as %s, which is no ValueError: the handler that retries the format without fractional '
+             'seconds is never entered and a file with a whole-second time cannot be loaded' % (conv[0][0].short, conv[0][1])) if conv else ot.ok())
     # origin time provenance
     o = ck.ob('C12-D4.time', g, 'origin time conversion', g.node)
     if isinstance(ev, ast.Tuple) and len(ev.elts) == 6:
